@@ -749,10 +749,46 @@ def b_abs(ex, st, v):
     return s_abs(v)
 
 
-def b_sorted(ex, st, v, key=None, reverse=False):
+def b_sorted(ex, st, v, key=None, reverse=False, _node=None):
+    """model of the builtin: the result is a *stable permutation* of the input *ordered by the key given in the source*"""
     if isinstance(v, (list, tuple)) and all(is_conc_num(x) for x in v) and key is None:
         return sorted(v, reverse=reverse)
-    raise Unsupported('sorted over symbolic values (use a contract-level model)')
+    ln, item = ex.iter_descr(v, st, _node)
+    n = to_int(ln) if not is_conc_num(ln) else z3.IntVal(ln)
+    PERM = z3.Function(fresh_name('SORT_PERM'), z3.IntSort(), z3.IntSort())
+
+    def K(i):
+        x = item(PERM(to_int(i)))
+        if key is None:
+            return x
+        ex.spec_mode += 1
+        try:
+            return ex.call(key, [x], {}, st, None)
+        finally:
+            ex.spec_mode -= 1
+    i, j = z3.Int(fresh_name('si')), z3.Int(fresh_name('sj'))
+    rng = lambda x: z3.And(x >= 0, x < n)
+    st.assume(z3.ForAll([i], z3.Implies(rng(i), rng(PERM(i))), patterns=[PERM(i)]))
+    st.assume(z3.ForAll([i, j], z3.Implies(z3.And(rng(i), rng(j), PERM(i) == PERM(j)), i == j), patterns=[z3.MultiPattern(PERM(i), PERM(j))]))
+    # surjective as well (finite injection): stated explicitly through an inverse
+    INV = z3.Function(fresh_name('SORT_INV'), z3.IntSort(), z3.IntSort())
+    st.assume(z3.ForAll([i], z3.Implies(rng(i), z3.And(rng(INV(i)), PERM(INV(i)) == i)), patterns=[INV(i)]))
+    lt = (lambda a, b: s_lt(b, a)) if reverse is True else (lambda a, b: s_lt(a, b))
+    before = lt(K(j), K(i))          # element at the later position sorts strictly before the earlier one: forbidden
+    if before is not False:
+        st.assume(z3.ForAll([i, j], z3.Implies(z3.And(rng(i), rng(j), i < j), z3.Not(to_z3(before)))))
+    strictly = lt(K(i), K(j))
+    if strictly is not True:
+        tie = z3.BoolVal(True) if strictly is False else z3.Not(to_z3(strictly))
+        st.assume(z3.ForAll([i, j], z3.Implies(z3.And(rng(i), rng(j), i < j, tie), PERM(i) < PERM(j))))
+    ex.assumed.append('model: sorted() returns a stable permutation of its input ordered by the key function given in the source')
+    ex.spec_funcs['SORT_PERM'] = ex.spec_funcs.get('SORT_PERM') or _spec(lambda q: PERM(to_int(q)))
+    return ArrayVal((ln,), lambda q: item(PERM(to_int(q))), 'obj')
+
+
+def _spec(fn):
+    from .engine import SpecFunc
+    return SpecFunc(fn)
 
 
 LIB.update({
@@ -781,7 +817,7 @@ def call_lib(ex, st, name, args, kwargs, node):
     if name.startswith('np.') and name not in ('np.array', 'np.asarray'):
         kwargs = dict(kwargs)
         kwargs['_node'] = node
-    elif name in ('builtins.max', 'builtins.min') and 'key' in kwargs:
+    elif name in ('builtins.max', 'builtins.min', 'builtins.sorted') and 'key' in kwargs:
         kwargs = dict(kwargs)
         kwargs['_node'] = node
     if name in ('np.array', 'np.asarray', 'np.fromiter'):
